@@ -60,6 +60,11 @@ func TestC07Exhaustive(t *testing.T) {
 		run(t, Case{Property: "C07", Kind: "diff", Expr: lit(x) + " && " + erring, Doc: "null", Extra: map[string]interface{}{"cell": "and-err"}})
 		run(t, Case{Property: "C07", Kind: "diff", Expr: "a || " + erring, Doc: `{"a":` + x + `}`, Extra: map[string]interface{}{"cell": "or-err-field"}})
 		run(t, Case{Property: "C07", Kind: "diff", Expr: "a && " + erring, Doc: `{"a":` + x + `}`, Extra: map[string]interface{}{"cell": "and-err-field"}})
+		// a failing operand under '!' combined with the other operators: the failure must not be read as a truth value
+		for _, e := range []string{"!" + erring + " && " + lit(x), "!" + erring + " || " + lit(x), lit(x) + " && !" + erring, lit(x) + " || !" + erring, "!(" + lit(x) + " && " + erring + ")", "!(" + lit(x) + " || " + erring + ")", "[?!" + erring + " && a]", "!" + erring + " == " + lit(x)} {
+			run(t, Case{Property: "C07", Kind: "diff", Expr: e, Doc: `[{"a":` + x + `}]`, Extra: map[string]interface{}{"cell": "not-err"}})
+			n++
+		}
 		n += 7
 	}
 	// filters over the universe itself
@@ -826,6 +831,8 @@ var errSeeds = []struct{ class, expr string }{
 	{"invalid-arity-2", "abs(`1`, `2`)"},
 	{"unknown-function", "nosuch(@)"},
 	{"zero-step", "`[1,2]`[::0]"},
+	{"zero-step-empty", "`[]`[1:2:0]"},
+	{"zero-step-neg", "`[1]`[::-0]"},
 	{"inconsistent-key", "sort_by(`[1,\"a\"]`, &@)"},
 	{"bad-key", "max_by(`[[1]]`, &@)"},
 	{"variadic-type", "merge(`{}`, `1`)"},
